@@ -13,7 +13,14 @@ var props = []prop{
 	{ID: "C11", Level: "exploration", Rule: "fuzz", Parts: []part{{Name: "fuzz", Pkg: "rfc", Test: "TestFuzzC11", Race: true, Batches: [2]int{8, 16}}}},
 	{ID: "C16", Level: "exploration", Rule: "fuzz", RaceIsViolation: true, Parts: []part{{Name: "fuzz", Pkg: "rfc", Test: "TestFuzzC16", Race: true, Batches: [2]int{8, 16}, DeathIsViolation: true}}},
 	{ID: "C18", Level: "exploration", Rule: "fuzz", Parts: []part{{Name: "fuzz", Pkg: "rfc", Test: "TestFuzzC18", Race: true, Batches: [2]int{8, 16}}}},
-	{ID: "C03", Level: "exploration", Rule: "fuzz", Parts: []part{{Name: "fuzz", Pkg: "rfc", Test: "TestFuzzC03", Batches: [2]int{8, 16}}}},
+	{ID: "C03", Level: "exploration",
+		Rule: "bulk part: one case = a set of N URIs (seeded sets of 40 from component pools; thorough also the whole reduced grid) stored and looked up in one cache, which implies all N(N-1)/2 pairs; non-trivial = a pair the RFC 3986 classifier calls distinct (counted per distinct key pair) or, for grid chunks, each grid URI. methods part: each method / GET+Range against a populated cache. fuzz part: random histories with the C03 monitor on every exchange.",
+		Assumptions: []string{"harness RFC 3986 classifier (equivalent / distinct / unknown); pairs classified unknown are not judged"},
+		Parts: []part{
+			{Name: "bulk", Pkg: "rfc", Test: "TestC03Bulk", Batches: [2]int{8, 16}},
+			{Name: "methods", Pkg: "rfc", Test: "TestC03Methods", Batches: [2]int{1, 1}},
+			{Name: "fuzz", Pkg: "rfc", Test: "TestFuzzC03", Batches: [2]int{4, 16}},
+		}},
 	{ID: "C04", Level: "exploration", Rule: "fuzz", Parts: []part{{Name: "fuzz", Pkg: "rfc", Test: "TestFuzzC04", Batches: [2]int{8, 16}}}},
 	{ID: "C06", Level: "exploration", Rule: "fuzz", Parts: []part{{Name: "fuzz", Pkg: "rfc", Test: "TestFuzzC06", Batches: [2]int{8, 16}}}},
 	{ID: "C07", Level: "exploration", Rule: "fuzz", Parts: []part{{Name: "fuzz", Pkg: "rfc", Test: "TestFuzzC07", Batches: [2]int{8, 16}}}},
